@@ -18,11 +18,11 @@ def plan(ctx):
                               desc=f"{fn} on a Decimal never converts it to binary float"))
     for op in ('+', '-', '*', '/', '==', '<', '>=', '!='):
         obs.append(Obligation(f"arithmetic.exact.{op}", "xh", "c08", "arithmetic_exact", param={"op": op}, timeout=T * 2,
-                              bounds="18 x 18 literal pairs (incl. 29-digit, 2**53+1, 1e-30, exact half-even ties), optional unary minus: finite domain, indices symbolic",
+                              bounds="20 x 20 literal pairs (incl. 29-digit, 2**53 and 2**53+1, 0.3 and 0.30000000000000001, 1e-30, exact half-even ties), optional unary minus, either operand a literal or the result of an operation: finite domain, indices symbolic",
                               desc=f"real eval of 'a {op} b' vs exact rational arithmetic rounded half-even to 28 digits"))
     for fn in ('round', 'floor', 'ceil', 'abs', 'int', 'sum', 'min', 'max'):
         obs.append(Obligation(f"builtin.exact.{fn}", "xh", "c08", "builtin_exact", param={"fn": fn}, timeout=T * 2,
-                              bounds="operands from 13 expressions (zeros written and computed, negatives, ties, a 29-digit literal); call forms f([..]), [..] | f, f([x]), f(x, y) / x | f / round(x, 1): finite domain, form and first operand symbolic, the others looped natively",
+                              bounds="operands from 18 expressions (zeros written and computed, negatives, ties, a 29-digit literal, values for rounding to tens / hundreds); call forms f([..]), [..] | f, f([x]), f(x, y) / x | f / round(x, 1), round(x, -1), round(x, -2): finite domain, form and first operand symbolic, the others looped natively",
                               desc=f"real eval of {fn} applied to literal expressions vs exact rationals (half-even where rounding is defined)"))
     obs.append(Obligation("after_failure", "xh", "c08", "after_failure", timeout=T * 2, bounds="10 failing numeric calls, once or twice (finite domain)",
                           desc="a failing numeric call leaves the decimal context and later arithmetic untouched"))
